@@ -950,6 +950,11 @@ impl World {
             self.record(Ev::UdpSend { sock, src, dst, dgram: id, data: bytes, ok: false, err: "closed" });
             return Err(io::Error::new(io::ErrorKind::NotConnected, "socket closed"));
         }
+        if dst.port() == 0 {
+            // what Linux does for a destination port of 0
+            self.record(Ev::UdpSend { sock, src, dst, dgram: id, data: bytes, ok: false, err: "InvalidInput" });
+            return Err(io::Error::new(io::ErrorKind::InvalidInput, "Invalid argument (os error 22)"));
+        }
         if sut && self.fault("send_err", self.cfg.faults.send_err) {
             let (kind, name): (io::ErrorKind, &'static str) = match self.choose(3) {
                 0 => (io::ErrorKind::WouldBlock, "WouldBlock"),
